@@ -51,6 +51,10 @@ fn decls() -> Vec<Decl> {
         (vec![at(x(0), "Mid")], vec![w2(x(0))]),
         (vec![at(x(0), "Base")], vec![w2(x(0))]),
         (vec![], vec![]),
+        // several fields, a parameterless struct before / after the field that needs the bound
+        (vec![], vec![a(), w2(x(0))]),
+        (vec![], vec![w2(x(0)), a()]),
+        (vec![at(x(0), "Mid")], vec![a(), w2(x(0))]),
     ];
     let w2_opts: Vec<Vec<Atom>> = vec![vec![], vec![at(x(0), "Mid")]];
     for mid in &mid_opts {
@@ -102,8 +106,13 @@ pub fn run_c21(rep: &Report) -> i32 {
         .collect();
     rep.note("declaration_variants", json!(decls.len()));
     rep.note("impl_subsets", json!(subsets.len()));
-    let jobs: Vec<(usize, usize)> = (0..decls.len()).flat_map(|d| (0..subsets.len()).map(move |s| (d, s))).collect();
-    jobs.par_iter().for_each(|&(di, si)| {
+    // every program also with all its impls marked `#[upstream]` (impls of other crates are
+    // turned into clauses all the same, so they have to be well-formed too)
+    let jobs: Vec<(usize, usize, bool)> = (0..decls.len())
+        .flat_map(|d| (0..subsets.len()).flat_map(move |s| [false, true].into_iter().map(move |u| (d, s, u))))
+        .filter(|(_, s, u)| !*u || !subsets[*s].is_empty())
+        .collect();
+    jobs.par_iter().for_each(|&(di, si, upstream)| {
         let d = &decls[di];
         let rules: Vec<Rule> = subsets[si].iter().map(|i| menu[*i].clone()).collect();
         let mut text = d.text.clone();
@@ -111,6 +120,9 @@ pub fn run_c21(rep: &Report) -> i32 {
             let mut s = String::new();
             render_impl(r, &mut s);
             text.push(' ');
+            if upstream {
+                text.push_str("#[upstream] ");
+            }
             text.push_str(s.trim());
         }
         rep.count("programs", 1);
@@ -226,7 +238,7 @@ pub fn run_c21(rep: &Report) -> i32 {
         states,
         tr,
         nt,
-        "every program from 24 declaration variants (supertrait on/off; struct W<T> with 6 where-clause/field combinations, W2<T> with/without a where-clause) x every subset (quick: of size <= 4) of 8 impls with sound or missing bounds, through checked_program (coherence + orphan + WF) with both solvers; for each ACCEPTED program, over all ground types of depth <= 3 (4 thorough): every well-formed type implementing a trait must satisfy the trait's where-clauses, and every field type of a well-formed struct instance must be well-formed; rejected programs are counted, not judged; non-trivial = accepted programs for which at least one obligation was evaluated",
+        "every program from 36 declaration variants (supertrait on/off; struct W<T> with 9 where-clause/field combinations incl. two-field structs in both field orders, W2<T> with/without a where-clause) x every subset (quick: of size <= 4) of 8 impls with sound or missing bounds, each program with its impls local and with all of them `#[upstream]`, through checked_program (coherence + orphan + WF) with both solvers; for each ACCEPTED program, over all ground types of depth <= 3 (4 thorough): every well-formed type implementing a trait must satisfy the trait's where-clauses, and every field type of a well-formed struct instance must be well-formed; rejected programs are counted, not judged; non-trivial = accepted programs for which at least one obligation was evaluated",
         true,
         &["REF: WF(type) = the ADT's where-clauses hold and all arguments are WF; Impl by least fixed point over the impls"],
     )
